@@ -38,6 +38,10 @@ func dbsimGen(r *rand.Rand, mode string, thorough bool) dbCase {
 			nops = 20 + r.Intn(200)
 		}
 		getFrac, delFrac := 25, 20
+		if mode == "" && r.Intn(6) == 0 {
+			opts.Async = true // the answers must not depend on the WAL flavour either
+			opts.DirectIOWAL = r.Intn(3) == 0
+		}
 		if mode == "lineage" {
 			// build a table stack: small memstore, many flushes, tombstones over older live values,
 			// compaction settings that select subsets not starting at the oldest table
